@@ -1108,7 +1108,18 @@ Definition nl_in_brackets_statement_level (T : ptab) : Prop :=
    and absent from the other, so the two runs go round the block loop a different number of times and reach a
    different recursion depth: at some fuels one run is out of fuel while the other has already reported its
    errors.  What the real parser (which has no fuel) satisfies is the statement with enough fuel on both
-   sides ([parse_fuel], ParserTotal.v), where [Fuel] and [Panic] cannot occur: *)
+   sides ([parse_fuel], ParserTotal.v), where [Fuel] and [Panic] cannot occur.
+   NOT proved.  Missing, precisely: (1) relatedness, under [rel], of the statement-level step functions (the
+   type parser with its ( ) [ ] brackets, enum/blob declarations, use/from, step_stmt, step_stmts), in the style
+   of [step_rel]; (2) a reading of the simulation that survives the first recorded error: from then on the two
+   runs are no longer in step, and what is needed is only that both end in [Err] - ParserTotal gives that
+   (a block request with a non-empty error list never answers [Ok]; [Fuel] excluded by [parse_fuel]), but [prel]
+   / [run_rel] compare the two runs at the same fuel and relate errors unconditionally, so they have to be
+   restated with [Fuel] as a wildcard and with "the reported error list is non-empty" as a fact about calls;
+   (3) the `loop` arm: Context::prev must land on the same token in both inputs, i.e. the last non-comment token
+   behind the cursor must not be a newline that was skipped inside brackets - true because every closing
+   bracket is consumed after pop_skip_newlines, but [rel] says nothing about [pre] (PreSim.v's relation does,
+   for inputs with EQUAL tokens ahead). *)
 Definition nl_in_brackets_statement_settled_statement (T : ptab) : Prop :=
   forall ts ts' f, insignificant_diff ts ts' -> frag ts -> frag ts' ->
   (match ts with TComment :: _ => False | _ => True end) ->
